@@ -1,8 +1,9 @@
 """C44 — option updates are transactional, typed and survive a config round-trip (mitmproxy/optmanager.py)."""
-import io, json
+import copy, glob, io, json, os, re
 from typing import Optional
 from collections.abc import Sequence
 from common.check import PropertyCheck, Skip
+from common.paths import CORPUS
 from mitmproxy import optmanager, exceptions
 
 TYS = {"bool": bool, "str": str, "int": int, "optstr": Optional[str], "optint": Optional[int], "seqstr": Sequence[str]}
@@ -132,7 +133,7 @@ class World:
         def verdict(updated):
             vals = w.values()
             tys = w.types()
-            w.calls.append({"who": lid, "updated": sorted(int(u[1:]) for u in updated), "vals": vals, "depth": w.depth,
+            w.calls.append({"who": lid, "updated": sorted(int(u[1:]) for u in updated), "vals": vals, "depth": w.depth, "after_reject": w.top_rejected,
                             "shown": w.show_store(vals, tys),
                             "untyped": [n for n, x in vals.items() if not conforms(tys[n], x)]})
             if holds(rule, vals, updated):
@@ -418,7 +419,7 @@ class Check(PropertyCheck):
             "pre": pre_shown, "post": w.show_store(post),
             "untyped": [n for n in w.decl if not conforms(w.decl[n][0], post[n])],
             "untyped_seen": [c["who"] for c in w.calls if c["untyped"]],
-            "calls": [{"who": c["who"], "updated": c["updated"], "shown": c["shown"], "depth": c["depth"]} for c in w.calls],
+            "calls": [{"who": c["who"], "updated": c["updated"], "shown": c["shown"], "depth": c["depth"], "after_reject": c["after_reject"]} for c in w.calls],
             "filters": {str(i): (None if f is None else sorted(f)) for i, f in w.filters.items()},
             "post_ok": all(n in post and post[n] == x and type(post[n]) is type(x) for n, x in rec.get("want", {}).items())
                        and all(post[n] == pre[n] for n in pre if n not in rec.get("want", {})) if "want" in rec else None,
@@ -442,7 +443,7 @@ class Check(PropertyCheck):
         out, exc = outcome(go)
         got = {n: getattr(fresh, nm(n)) for n in w.decl}
         rec["out"] = out
-        rec["lost"] = [[n, has_nel(x)] for n, x in changed.items() if not (got[n] == x and type(got[n]) is type(x))]
+        rec["lost"] = [{"n": n, "want": x, "got": got[n]} for n, x in changed.items() if not (got[n] == x and type(got[n]) is type(x))]
         shown = ";".join("%d=%s" % (n, show_val(w.decl[n][0], got[n])) for n in w.decl) or "-"
         # the model's YAML is the ideal one; any state holding U+0085 is left out of the comparison (F-C44b)
         rec["reply"] = "save nel" if self._reply_has_nel(pre_shown) else "%s %s" % (out, shown)
@@ -456,9 +457,9 @@ class Check(PropertyCheck):
             if k == "save":
                 # "Saving options to a config file and loading that file into fresh options reproduces every non-default value."
                 if r["out"] != "ok":
-                    fails.append("roundtrip[%s]: op %d save/load raised %s" % ("nel" if r["nel"] else "plain", i, r["out"]))
-                for n, nel in r["lost"]:
-                    fails.append("roundtrip[%s]: op %d option %d not reproduced after save/load" % ("nel" if nel else "plain", i, n))
+                    fails.append("roundtrip-raised@%d: save/load raised %s" % (i, r["out"]))
+                for l in r["lost"]:
+                    fails.append("roundtrip@%d#%d: option %d not reproduced after save/load: %r came back as %r" % (i, l["n"], l["n"], l["want"], l["got"]))
                 continue
             if r["out"] not in ("ok", "TypeError", "OptionsError", "KeyError"):
                 fails.append("op %d: unexpected outcome %s" % (i, r["out"]))
@@ -476,16 +477,13 @@ class Check(PropertyCheck):
                 last = {}
                 for c in r["calls"]: last[c["who"]] = c["shown"]
                 stale = sorted(w for w, s in last.items() if s != r["post"])
-                if stale:
-                    top = {c["who"] for c in r["calls"] if c["depth"] == 0}
-                    tag = ("rollback-interrupted" if r["rollback_interrupted"] else
-                           "nested-not-renotified" if not (set(stale) & top) else
-                           "acts-after-reject" if r["acts_after_reject"] else "delivered")
+                for lid in stale:
+                    cls = self._stale_class(r, lid)
                     # after a listener-issued update following the rejection, a listener not subscribed to the names that
                     # update assigned legitimately keeps its older view: not judged
-                    if tag != "acts-after-reject":
-                        fails.append("restored-view[%s]: op %d rejected, listeners %s last saw a state other than the final (restored) one"
-                                     % (tag, i, stale))
+                    if cls != "acts-after-reject":
+                        fails.append("restored-view@%d#%d: op %d rejected, listener %d last saw %s, the final (restored) state is %s [%s]"
+                                     % (i, lid, i, lid, last[lid], r["post"], cls))
             elif k in ("upd", "updk", "updd"):
                 # "an accepted update notifies listeners with the names of the assigned options"
                 top = [c for c in r["calls"] if c["depth"] == 0]
@@ -508,11 +506,99 @@ class Check(PropertyCheck):
                             fails.append("notify: op %d listener %d saw %s, not the assigned state %s" % (i, c["who"], c["shown"], r["post"]))
         return fails
 
+    @staticmethod
+    def _stale_class(r, lid):
+        """why listener `lid` ends a rejected operation with a view other than the final state (structured facts only)"""
+        calls = [c for c in r["calls"] if c["who"] == lid]
+        outer = next((c["updated"] for c in r["calls"] if c["depth"] == 0), None)
+        flt = r["filters"].get(str(lid))
+        concerned = outer is not None and (flt is None or bool(set(flt) & set(outer)))
+        top = [c for c in calls if c["depth"] == 0]
+        if not concerned and not top and calls and r["acted"] > 0 and all(c["depth"] >= 1 for c in calls):
+            return "nested-not-renotified"          # F-C44d: shown tentative values by a nested update only, outer names do not concern it
+        if concerned and r["rollback_interrupted"] and calls and not any(c["after_reject"] for c in top):
+            return "rollback-interrupted"           # F-C44c: concerned, shown tentative values, never reached by the cut-short rollback notification
+        if r["acts_after_reject"]: return "acts-after-reject"
+        return "other"
+
+    @staticmethod
+    def _nel_fold(x):
+        """what ruamel.yaml's scanner makes of a single-quoted scalar into which the emitter wrote U+0085 raw (F-C44b):
+        flow-scalar line folding, where U+0085 counts as a line break and U+2028/2029 are breaks that are kept"""
+        def rep(m):
+            run = m.group(0); f, rest = run[0], run[1:]
+            return (f if f != NEL else (" " if not rest else "")) + "".join("\n" if c == NEL else c for c in rest)
+        return re.sub("[\x85\u2028\u2029]+", rep, x)
+
+    def _is_nel_loss(self, want, got):
+        if isinstance(want, str):
+            return isinstance(got, str) and NEL in want and got == self._nel_fold(want)
+        if isinstance(want, list):
+            return (isinstance(got, list) and len(got) == len(want) and all(isinstance(a, str) and isinstance(b, str) for a, b in zip(want, got))
+                    and any(a != b for a, b in zip(want, got))
+                    and all(a == b or self._is_nel_loss(a, b) for a, b in zip(want, got)))
+        return False
+
     def known(self, case, obs, failure):
-        if failure.startswith("roundtrip[nel]"): return "F-C44b"
-        if failure.startswith("restored-view[rollback-interrupted]"): return "F-C44c"
-        if failure.startswith("restored-view[nested-not-renotified]"): return "F-C44d"
-        return None
+        """a finding's id only when the failing clause AND the structured facts of the observation are the recorded ones"""
+        m = re.match(r"(roundtrip|restored-view)@(\d+)#(\d+):", failure)
+        if not m or not isinstance(obs, list): return None
+        kind, i, x = m.group(1), int(m.group(2)), int(m.group(3))
+        if i >= len(obs): return None
+        r = obs[i]
+        if kind == "roundtrip":
+            # F-C44b: save/load went through, and the value came back exactly as the NEL line folding leaves it
+            if r.get("op") != "save" or r.get("out") != "ok": return None
+            l = next((l for l in r["lost"] if l["n"] == x), None)
+            return "F-C44b" if l is not None and self._is_nel_loss(l["want"], l["got"]) else None
+        if r.get("op") not in ("upd", "updk", "updd", "set", "pd") or r.get("out") != "OptionsError": return None
+        cls = self._stale_class(r, x)
+        return {"rollback-interrupted": "F-C44c", "nested-not-renotified": "F-C44d"}.get(cls)
+
+    def setup(self, tier):
+        self.known_selftest()
+
+    def known_selftest(self):
+        """positive witness + near misses for every recorded finding; a disagreement ends the run as INFRA"""
+        import copy
+        corp = {os.path.basename(f): json.load(open(f)) for f in glob.glob(os.path.join(CORPUS, "C44", "*.json"))}
+        def run(case):
+            obs = self.impl(case); return obs, self.oracle(case, obs)
+        def ids(case, obs, fails): return [self.known(case, obs, f) for f in fails]
+        trip = []
+        # F-C44b ---------------------------------------------------------------------------------------------------
+        b = corp["f_c44b_nel_yaml.json"][0]; ob, fb = run(b)
+        assert fb and set(ids(b, ob, fb)) == {"F-C44b"}, ("F-C44b witness", fb)
+        o2 = copy.deepcopy(ob); o2[-1]["lost"][0]["got"] = "zzz"            # same input class, a different corruption
+        trip.append((b, o2, fb[0], None))
+        o3 = copy.deepcopy(ob); o3[-1]["out"] = "OptionsError"               # same input class, the load is refused
+        trip.append((b, o3, fb[0], None)); trip.append((b, o3, "roundtrip-raised@2: save/load raised OptionsError", None))
+        o4 = copy.deepcopy(ob); o4[-1]["lost"][0].update(want="a\u2028b", got="a b")   # neighbouring input: U+2028, no U+0085
+        trip.append((b, o4, fb[0], None))
+        o5 = copy.deepcopy(ob); o5[-1]["lost"][0].update(want="a\r\nb", got="a\nb")     # neighbouring input: CRLF
+        trip.append((b, o5, fb[0], None))
+        # F-C44c ---------------------------------------------------------------------------------------------------
+        c = corp["f_c44c_rollback_notification_interrupted.json"][0]; oc, fc = run(c)
+        assert fc and set(ids(c, oc, fc)) == {"F-C44c"}, ("F-C44c witness", fc)
+        o6 = copy.deepcopy(oc)                                                # the stale listener WAS reached by the rollback notification
+        for cl in o6[-1]["calls"]:
+            if cl["who"] == 2: cl["after_reject"] = True
+        trip.append((c, o6, fc[0], None))
+        o7 = copy.deepcopy(oc); o7[-1]["rollback_interrupted"] = False        # rollback notification delivered, listener still stale
+        trip.append((c, o7, fc[0], None))
+        trip.append((c, oc, "rollback: op 3 upd rejected with OptionsError but options changed", None))   # other clause, same input
+        # F-C44d ---------------------------------------------------------------------------------------------------
+        d = corp["seeded_c44_1_nested_update_then_reject.json"][1]; od, fd = run(d)
+        assert fd and set(ids(d, od, fd)) == {"F-C44d"}, ("F-C44d witness", fd)
+        o8 = copy.deepcopy(od); o8[-1]["filters"]["2"] = [0, 1]               # neighbouring input: the listener IS concerned by the outer names
+        trip.append((d, o8, fd[0], None))
+        o9 = copy.deepcopy(od)                                                # it was called for the outer update and is stale all the same
+        o9[-1]["calls"].append(dict(o9[-1]["calls"][0], who=2, depth=0, after_reject=True))
+        trip.append((d, o9, fd[0], None))
+        trip.append((d, od, "rollback: op 5 upd rejected with OptionsError but options changed", None))
+        for case, obs, failure, want in trip:
+            got = self.known(case, obs, failure)
+            assert got == want, ("known() selftest", failure, got, want)
 
     # ---------------------------------------------------------------- model tie
     def model_lines(self, case):
